@@ -264,6 +264,22 @@ def run(run, driver_ok=True, deep=False):  # pylint: disable=redefined-outer-nam
         cases.append({'kind': 'key', 'data': hx(data + b'\x00\x01'), 'canonical': True})
         for m in clsrun.mutations(run.rng, data, 2):
             cases.append({'kind': 'key', 'data': hx(m)})
+    # key parameters at the mpint sign boundary: a first octet of exactly 0x80 (0x81, 0xff) without a zero pad is the
+    # canonical encoding of a NEGATIVE number; the blob must come back octet for octet
+    for data in sign_boundary_keys(run.rng, 60 if tier == 'thorough' else 12):
+        cases.append({'kind': 'key', 'data': hx(data), 'canonical': True})
+    # certificates (rare among host_key()): every v01 class, with critical options and extensions
+    n_cert = 150 if tier == 'thorough' else 25
+    for kind in ('RSA', 'DSS', 'ECDSA', 'EDDSA'):
+        gen = gen_ssh.certificate(kind)
+        for _ in range(n_cert):
+            try:
+                data = bytes(gen(run.rng).compose())
+            except Exception as exc:  # pylint: disable=broad-except
+                run.count('generator_errors', '{}:{}'.format(kind, type(exc).__name__))
+                continue
+            run.count('certificates', kind)
+            cases.append({'kind': 'key', 'data': hx(data), 'canonical': True})
     for c in cases:
         run.count('ops', c['kind'])
         if c['data'].strip('0-'):
@@ -280,6 +296,32 @@ def run(run, driver_ok=True, deep=False):  # pylint: disable=redefined-outer-nam
                 run.finding(key, message, case)
     run.notes.append('OpenSSH prints SHA256/SHA1 fingerprints without the trailing "=" padding; the implementation (and '
                      'its pinned tests) keep the padding — the definition checked here is RFC 4648 base 64 with padding')
+
+
+def sign_boundary_keys(rng, n):
+    import struct
+
+    def string(b):
+        return struct.pack('>I', len(b)) + b
+
+    def mpint_octets(first, length):
+        rest = bytearray(rng.getrandbits(8) | 1 for _ in range(length - 1))
+        if rest and first == 0xff:
+            rest[0] &= 0x7f         # ff followed by an octet >= 0x80 would be an unnecessary leading 255 (RFC 4251)
+        if rest and first == 0x00:
+            rest[0] |= 0x80
+        return bytes([first]) + bytes(rest)
+
+    out = []
+    for _ in range(n):
+        first = rng.choice([0x80, 0x80, 0x81, 0xff, 0x7f])
+        which = rng.randrange(4)
+        params = [mpint_octets(first if i == which else 0x5a, rng.choice([20, 64, 128])) for i in range(4)]
+        out.append(string(b'ssh-dss') + b''.join(string(p) for p in params))
+        e = mpint_octets(first if which % 2 == 0 else 0x01, rng.choice([1, 3, 5]))
+        nn = mpint_octets(first if which % 2 == 1 else 0x5a, rng.choice([64, 129, 256]))
+        out.append(string(b'ssh-rsa') + string(e) + string(nn))
+    return out
 
 
 def search(run, proof):  # pylint: disable=redefined-outer-name,unused-argument
